@@ -291,6 +291,69 @@ func c08Gdef(r *run.Run) {
 		})
 }
 
+// c08GdefLimits: the header of a GDEF table has 16-bit offsets to its parts; glyph class and mark
+// attachment class tables over many glyphs push the later parts beyond 64 KiB.
+func c08GdefLimits(r *run.Run) {
+	alternating := func(n int, a, b uint16) classdef.Table {
+		t := classdef.Table{}
+		for i := 0; i < n; i++ {
+			t[glyph.ID(1+i)] = []uint16{a, b}[i%2]
+		}
+		return t
+	}
+	// with n alternating classes a class definition table takes 6 + 2n bytes (format 1)
+	counts := []int{1, 1000, 32740}
+	for n := 32748; n <= 32770; n++ {
+		counts = append(counts, n)
+	}
+	counts = append(counts, 40000, 65535)
+	r.Explore(explore.Config{Name: "C08.gdef-limits"},
+		"gdef.Table with glyph class / mark attachment class tables of n alternating classes, n in {1, 1000, 32740, every value 32748..32770 (the following part starts at offset 0x10000 +- 20), 40000, 65535}, the large table in either position, with and without mark glyph sets: Read(Encode(x)) == x or the encoder refuses loudly",
+		func(c *explore.Ctx) {
+			n := counts[c.Choose(len(counts), "entries of the large class table")]
+			where := c.Choose(3, "large table")
+			t := &gdef.Table{}
+			switch where {
+			case 0: // large glyph class table, small mark attachment table behind it
+				t.GlyphClass = alternating(n, 1, 3)
+				t.MarkAttachClass = classdef.Table{2: 1, 4: 2}
+			case 1: // small glyph class table, large mark attachment table (mark sets behind it)
+				t.GlyphClass = classdef.Table{1: 1, 2: 3}
+				t.MarkAttachClass = alternating(n, 1, 2)
+			default: // two tables of half the size each
+				t.GlyphClass = alternating(n/2, 1, 3)
+				t.MarkAttachClass = alternating(n-n/2, 2, 1)
+			}
+			sets := c.Choose(3, "mark glyph sets")
+			if sets >= 1 {
+				t.MarkGlyphSets = []coverage.Set{{2: true, 6: true}}
+			}
+			if sets == 2 {
+				t.MarkGlyphSets = append(t.MarkGlyphSets, coverage.Set{}, coverage.Set{4: true})
+			}
+			desc := fmt.Sprintf("%d alternating classes, large table %d, %d mark glyph sets", n, where, len(t.MarkGlyphSets))
+			c.Sample(func() any { return desc })
+			c.Nontrivial()
+			var enc []byte
+			if p := guard(func() { enc = t.Encode() }); p != "" {
+				c.Tag("refused loudly: " + p)
+				c.Outcome("refused", desc)
+				return
+			}
+			c.Outcome(len(enc), desc)
+			back, err := gdef.Read(bytes.NewReader(enc))
+			if err != nil {
+				c.Fail("C08.roundtrip", "gdef.Table at the offset limit", "Read(Encode(x)) fails: %v (%d bytes; %s)", err, len(enc), desc)
+				return
+			}
+			if !reflect.DeepEqual(t, back) {
+				if d := cmp.Diff(t, back, c08cmp...); d != "" {
+					c.Fail("C08.roundtrip", "gdef.Table at the offset limit "+diffSig(d), "GDEF differs after the round trip (%d bytes; %s): %s", len(enc), desc, trimDiff(d))
+				}
+			}
+		})
+}
+
 func c08Info(tp gtab.Type, ll gtab.LookupList) *gtab.Info {
 	var idx []gtab.LookupIndex
 	for i := range ll {
@@ -1178,6 +1241,7 @@ func init() {
 		c08Classdef(r)
 		c08RangeLimits(r)
 		c08Gdef(r)
+		c08GdefLimits(r)
 		c08Lookups(r)
 		c08Extension(r)
 		c08ExtensionWindow(r)
